@@ -291,6 +291,7 @@ def run_property(prop, tier, seed):
     # real code over a finite family of inputs (bounded stand-in): a failing input found there is a
     # violation with a replayable witness; finding none leaves the unit undecided (never "proved").
     fallback_violations = []
+    other_notes = []
     ran_routines = set()
     und_names = set(u for (u, _) in undecided_units)
     # thorough tier: the same routines also run when every unit was extracted and proved, as an independent
@@ -348,6 +349,15 @@ def run_property(prop, tier, seed):
                                   "why": "unit undecided" if drifted else ("thorough tier" if tier == "thorough" else "extracted source differs from the pinned tree"),
                                   "observed": d.get("clause", d.get("error", ""))})
             if d.get("found"):
+                # a routine serves several properties; the clause it reports names the ones its failed oracle is about.
+                # A finding that names other properties only is theirs (their checks report it): it is no violation of
+                # this one, and since the routine stops at its first finding it says nothing more about this one either.
+                named = set(re.findall(r"\bC\d\d\b", str(d.get("clause", ""))))
+                if named and prop not in named:
+                    fallback_runs[-1]["found"] = False
+                    fallback_runs[-1]["finding_belongs_to"] = sorted(named)
+                    other_notes.append("NOTE property=%s routine=%s stopped at a finding that belongs to %s: %s" % (prop, routine.split()[0], ",".join(sorted(named)), str(d.get("clause", ""))[:160]))
+                    continue
                 d["replay_cmd"] = "%s %s" % (witness.BIN, d.get("rerun", "replay " + routine).split(" ", 1)[1])
                 d["note"] = ("the unit could not be extracted (%s); input found by the bounded fallback on the real code" % r.get("reason", "")[:200]) if drifted \
                     else "input found on the real code by the bounded routine of the thorough tier although the contracts verify: a modelling assumption does not hold for this input"
@@ -408,6 +418,7 @@ def run_property(prop, tier, seed):
         rc = 1
     if rc == 0 and undecided:
         rc = 2
+    lines.extend(other_notes)
     for u in undecided:
         lines.append("UNDECIDED property=%s %s" % (prop, u.replace("\n", " | ")[:1500]))
 
